@@ -396,6 +396,19 @@ fn main() {
                     break;
                 }
             }
+            // (iii') for streams that ignore absent samples the output right after an absent event is the output
+            // right before it (a cached error is cleared to absent): deleting the event changes nothing
+            if ignores_none(kind) {
+                for (i, e) in h.iter().enumerate() {
+                    if e.input != Ev::None { continue; }
+                    rep.eval();
+                    let expect = if i == 0 { Obs::None } else { match &a[i - 1] { Obs::Err(_) => Obs::None, o => o.clone() } };
+                    if a[i] != expect {
+                        rep.violation(&format!("C05/none-not-ignored/{}", name), sub, case, format!("event {} is absent: output went from {:?} to {:?}; params={:?} history={:?}", i, if i > 0 { Some(&a[i - 1]) } else { None }, a[i], p, h));
+                        break;
+                    }
+                }
+            }
             // (iii) None-deletion
             if ignores_none(kind) && h.iter().any(|e| e.input == Ev::None) {
                 let keep: Vec<usize> = (0..h.len()).filter(|&i| h[i].input != Ev::None).collect();
